@@ -211,7 +211,9 @@ PROPS = {
     "C01": dict(pool_prop([], ["Reach-level theorems assume gRPC's contract (RunOk: Shutdown is reported only for removed connections)"]),
                 theorems=pool_thms(["bound_ready_home", "bound_notready_no_fallback", "unknown_key", "bind_bound_key_noop", "bind_new_key", "unbind_removes", "unbind_other", "lookup_preserves_binding"]) +
                 [("GcpVerif.Proofs.PoolKeys", "GcpVerif.Pool." + n) for n in ["bound_key_in_pool", "binding_stable", "keyed_run", "stable_swap"]]),
-    "C02": pool_prop(["streams_exact", "streams_nonneg", "streams_zero_when_idle", "run_inv", "leastBusy_spec", "leastBusy_first_on_tie", "below_watermark_places"], ["placement and increment are treated as one atomic step (exact for picks on one picker; picks on different pickers may interleave scan and increment)"]),
+    "C02": dict(pool_prop([], ["placement and increment are one atomic step of the model: for picks on one picker this is the picker mutex held exclusively around the scan (per-run obligation c02_scan_exclusive on the regenerated access table; the pick2 operation of the harness runs two picks concurrently with the balancer lock stalled and the model must explain the outcome by some order of two atomic picks); picks on different pickers may interleave scan and increment"]),
+                theorems=pool_thms(["streams_exact", "streams_nonneg", "streams_zero_when_idle", "run_inv", "leastBusy_spec", "leastBusy_first_on_tie", "below_watermark_places"]) +
+                [("GcpVerif.Proofs.PickAtomic", "GcpVerif.Sync.c02_scan_exclusive"), ("GcpVerif.Proofs.PickAtomic", "GcpVerif.Sync.c02_scan_present")]),
     "C03": dict(pool_prop([], ["size bound: minSize <= maxSize and no Shutdown report for a current pool member (RunOk; known finding K6 outside, kernel-checked witness size_bound_needs_contract)"]),
                 theorems=pool_thms(["growth_only_when_saturated", "at_max_places_anyway", "below_watermark_places"]) +
                 [("GcpVerif.Proofs.PoolSlots", "GcpVerif.Pool." + n) for n in ["size_bounded", "slots_bijective", "pool1_run", "size_bound_needs_contract"]]),
@@ -234,15 +236,20 @@ PROPS = {
                 + [("GcpVerif.Proofs.PoolAddrs", "GcpVerif.Pool." + n) for n in ["addrs_current", "addrsCur_run", "ccs_connects_all", "ccs_sets_addrs"]]),
     "C13": {
         "harnesses": ["me"], "lake_targets": ["GcpVerif"],
-        "theorems": me_thms(["c13_mem_holds", "c13_mem_init", "c13_unavail_excluded_holds", "c13_noavail_holds", "c13_empty_holds", "reach_inv"]),
-        "leanchecker": ["GcpVerif.Proofs.ME"],
+        "theorems": me_thms(["c13_mem_holds", "c13_mem_init", "c13_unavail_excluded_holds", "c13_noavail_holds", "c13_empty_holds", "reach_inv"]) +
+                    [("GcpVerif.Proofs.ME2", "GcpVerif.ME." + n) for n in ["c13_switch_top_holds", "c13_d0_holds", "reach_J", "reach_K", "nextCur_d0", "nextCur_idem"]],
+        "leanchecker": ["GcpVerif.Proofs.ME", "GcpVerif.Proofs.ME2"],
         "trusted_base": ME_TB,
         "assumptions": ["0 <= RecoveryTimeout and 0 <= SwitchingDelay (negative durations are covered by the correspondence only)"],
     },
     "C14": {
         "harnesses": ["me"], "lake_targets": ["GcpVerif"],
-        "theorems": me_thms(["c14_stays_holds", "c14_no_preempt_holds", "c14_no_downgrade_holds", "c14_fire_due_holds", "reach_inv"]),
-        "leanchecker": ["GcpVerif.Proofs.ME"],
+        "theorems": me_thms(["c14_stays_holds", "c14_no_preempt_holds", "c14_no_downgrade_holds", "c14_fire_due_holds", "reach_inv"]) +
+                    [("GcpVerif.Proofs.ME2", "GcpVerif.ME.c14_repeat_holds"), ("GcpVerif.Proofs.ME2", "GcpVerif.ME.reach_stable"),
+                     ("GcpVerif.Proofs.ME3", "GcpVerif.ME.reach_tinv"),
+                     ("GcpVerif.Proofs.ME4", "GcpVerif.ME.c14_cancel_holds"), ("GcpVerif.Proofs.ME4", "GcpVerif.ME.c14_converged_holds"),
+                     ("GcpVerif.Proofs.ME4", "GcpVerif.ME.reach_V")],
+        "leanchecker": ["GcpVerif.Proofs.ME", "GcpVerif.Proofs.ME2", "GcpVerif.Proofs.ME3", "GcpVerif.Proofs.ME4"],
         "trusted_base": ME_TB,
         "assumptions": ["0 <= RecoveryTimeout and 0 <= SwitchingDelay (negative durations are covered by the correspondence only)"],
     },
